@@ -122,8 +122,8 @@ func runC10(c *engine.Ctx, tier string) {
 	// (5) shared with C04
 	c.Al = proposalAliases(c.P)
 	c.Guard(engine.Guard{ID: "C10.5", Pkg: pkgProposalCtl, Min: 1, Sel: engine.Sel{Call: sbSet},
-		Require: "!(@CFG.Status.State == config/v2.ConfigurationStatus_SYNCHRONIZING) && !(@CFG.Status.Applied.Mastership.Term < @CFG.Status.Mastership.Term)",
-		Why:     "no new change is sent in a term before the previously applied configuration was re-sent in that term"})
+		Require: "!(@CFG.Status.State == config/v2.ConfigurationStatus_SYNCHRONIZING) && (@CFG.Status.State == config/v2.ConfigurationStatus_PERSISTED || !(@CFG.Status.Applied.Mastership.Term < @CFG.Status.Mastership.Term))",
+		Why:     "no new change is sent in a term before the previously applied configuration was re-sent in that term (a target marked Persistent keeps its configuration itself and is never re-sent anything: the clause does not apply to it, see F53)"})
 	connLifecycle(c, "C10.6")
 	// "its mastership term never decreases": master and term live in the configuration record, which the
 	// proposal and configuration controllers also write; a writer that read an older master/term must lose
